@@ -75,7 +75,7 @@ pub fn run_c18(cfg: &RunCfg, stats: &mut Stats, extra: &mut Value) -> Outcome {
         Ok(b) => b,
         Err(e) => return Outcome::Inconclusive(e),
     };
-    let (cases, shards) = if cfg.thorough { (400u32, 8usize) } else { (40u32, 8usize) };
+    let (cases, shards) = if cfg.thorough { (6000u32, 8usize) } else { (200u32, 8usize) };
     let mut c = Command::new(&bin);
     c.arg("run").arg(cfg.seed.to_string()).arg(cases.to_string()).arg(shards.to_string());
     let (code, out, err) = match run_capture(c) {
